@@ -224,3 +224,422 @@ theorem canon_of_hasTy (hd : d.fieldsOk) : ∀ (f : Nat) (ty : STy) (w : TVal), 
 
 end
 end Pilota.TGen
+
+namespace Pilota.TGen
+open Pilota Pilota.Thrift
+
+section
+variable (dw : Doc) (keep : String → Field → Bool) (dpr dpw : Option Nat)
+
+/-- `y` has the wire type of `x` and the full reader maps it back to `x` -/
+def BackT (ty : STy) (x y : TVal) : Prop := y.ttype = x.ttype ∧ Back dw dpw ty x y
+
+theorem projNK_inv (e : STy) (P : TVal → Prop)
+    (hIH : ∀ x, P x → ∀ fK y, projTyK (restrict dw keep) dpr fK e x = some (.ok y) → BackT dw dpw e x y) :
+    ∀ (fK : Nat) (xs : TVals), (∀ x ∈ xs.toList, P x) → ∀ acc ys, projNK (restrict dw keep) dpr fK e xs acc = some (.ok ys) →
+      ∃ ys0, ys = acc.reverse ++ ys0 ∧ All2 (BackT dw dpw e) xs.toList ys0 := by
+  intro fK
+  induction fK with
+  | zero => intro xs _ acc ys h; simp [projNK] at h
+  | succ fK ih =>
+    intro xs hP acc ys h
+    cases xs with
+    | nil =>
+      simp only [projNK, Option.some.injEq, Out.ok.injEq] at h
+      exact ⟨[], by simp [h], .nil⟩
+    | cons x xs =>
+      simp only [projNK] at h
+      cases hx : projTyK (restrict dw keep) dpr fK e x with
+      | none => simp [hx] at h
+      | some o =>
+        cases o with
+        | ok v =>
+          simp only [hx] at h
+          obtain ⟨ys0, hy, hall⟩ := ih xs (fun y hy => hP y (by simp [TVals.toList, hy])) (v :: acc) ys h
+          exact ⟨v :: ys0, by simp [hy], .cons (hIH x (hP x (by simp [TVals.toList])) fK v hx) hall⟩
+        | err k => simp [hx] at h
+        | panic m => simp [hx] at h
+        | fuel => simp [hx] at h
+
+theorem projPairsK_inv (k v : STy) (P Q : TVal → Prop)
+    (hK : ∀ x, P x → ∀ fK y, projTyK (restrict dw keep) dpr fK k x = some (.ok y) → BackT dw dpw k x y)
+    (hV : ∀ x, Q x → ∀ fK y, projTyK (restrict dw keep) dpr fK v x = some (.ok y) → BackT dw dpw v x y) :
+    ∀ (fK : Nat) (xs : TPairs), (∀ x ∈ xs.toList, P x.1 ∧ Q x.2) → ∀ acc ys, projPairsK (restrict dw keep) dpr fK k v xs acc = some (.ok ys) →
+      ∃ ys0, ys = acc.reverse ++ ys0 ∧ All2 (fun x y => BackT dw dpw k x.1 y.1 ∧ BackT dw dpw v x.2 y.2) xs.toList ys0 := by
+  intro fK
+  induction fK with
+  | zero => intro xs _ acc ys h; simp [projPairsK] at h
+  | succ fK ih =>
+    intro xs hP acc ys h
+    cases xs with
+    | nil =>
+      simp only [projPairsK, Option.some.injEq, Out.ok.injEq] at h
+      exact ⟨[], by simp [h], .nil⟩
+    | cons a b xs =>
+      simp only [projPairsK] at h
+      cases ha : projTyK (restrict dw keep) dpr fK k a with
+      | none => simp [ha] at h
+      | some o =>
+        cases o with
+        | ok ka =>
+          simp only [ha] at h
+          cases hb : projTyK (restrict dw keep) dpr fK v b with
+          | none => simp [hb] at h
+          | some o2 =>
+            cases o2 with
+            | ok vb =>
+              simp only [hb] at h
+              obtain ⟨ys0, hy, hall⟩ := ih xs (fun y hy => hP y (by simp [TPairs.toList, hy])) ((ka, vb) :: acc) ys h
+              have hab := hP (a, b) (by simp [TPairs.toList])
+              exact ⟨(ka, vb) :: ys0, by simp [hy], .cons ⟨hK a hab.1 fK ka ha, hV b hab.2 fK vb hb⟩ hall⟩
+            | err e => simp [hb] at h
+            | panic m => simp [hb] at h
+            | fuel => simp [hb] at h
+        | err e => simp [ha] at h
+        | panic m => simp [ha] at h
+        | fuel => simp [ha] at h
+
+/-- does the reader (which has the fields of `fs0` that `kp` keeps) know the wire field `p`? -/
+def keptBy (fs0 : List Field) (kp : Field → Bool) (p : Int × TVal) : Bool :=
+  match fs0.find? (fun x => x.id == p.1 && dw.ttype x.ty == p.2.ttype) with
+  | some fl => kp fl
+  | none => false
+
+def RelK (fs0 : List Field) (p q : Int × TVal) : Prop :=
+  q.1 = p.1 ∧ q.2.ttype = p.2.ttype ∧ ∃ G, ∀ fl ∈ fs0, fl.id = p.1 → projTy dw dpw G fl.ty q.2 = some (.ok p.2)
+
+theorem projFieldsK_inv (fs0 : List Field) (kp : Field → Bool) (hpw : fs0.Pairwise (fun a b => a.id ≠ b.id)) (f : Nat)
+    (hIH : ∀ ty x, hasTy dw f ty x = true → ∀ fK y, projTyK (restrict dw keep) dpr fK ty x = some (.ok y) → BackT dw dpw ty x y) :
+    ∀ (fK : Nat) (wfs : TFields), (∀ p ∈ wfs.toList, ∃ fl ∈ fs0, fl.id = p.1 ∧ dw.ttype fl.ty = p.2.ttype ∧ hasTy dw f fl.ty p.2 = true) →
+    ∀ slots unk slots' unk', projFieldsK (restrict dw keep) dpr fK (fs0.filter kp) slots unk wfs = some (.ok (slots', unk')) →
+      ∃ ks, slots' = setAll slots ks ∧ unk' = unk ++ wfs.toList.filter (fun p => !keptBy dw fs0 kp p) ∧
+        All2 (RelK dw dpw fs0) (wfs.toList.filter (keptBy dw fs0 kp)) ks := by
+  intro fK
+  induction fK with
+  | zero => intro wfs _ slots unk slots' unk' h; simp [projFieldsK] at h
+  | succ fK ih =>
+    intro wfs hty slots unk slots' unk' h
+    cases wfs with
+    | nil =>
+      simp only [projFieldsK, Option.some.injEq, Out.ok.injEq, Prod.mk.injEq] at h
+      exact ⟨[], by simp [setAll, h.1], by simp [TFields.toList, h.2], by simp [TFields.toList]; exact .nil⟩
+    | cons id v r =>
+      obtain ⟨fl, hfl, hid, htt, hv⟩ := hty (id, v) (by simp [TFields.toList])
+      have hfind0 : fs0.find? (fun x => x.id == id && dw.ttype x.ty == v.ttype) = some fl := by
+        apply find_unique fs0 hpw fl hfl
+        · simp only [Bool.and_eq_true, beq_iff_eq]; exact ⟨hid, htt⟩
+        · intro x hx; simp only [Bool.and_eq_true, beq_iff_eq] at hx; rw [hx.1, hid]
+      have hrest : ∀ p ∈ r.toList, ∃ fl ∈ fs0, fl.id = p.1 ∧ dw.ttype fl.ty = p.2.ttype ∧ hasTy dw f fl.ty p.2 = true :=
+        fun p hp => hty p (by simp [TFields.toList, hp])
+      simp only [projFieldsK, restrict_ttype, List.find?_filter] at h
+      split at h
+      · cases h
+      · by_cases hk : kp fl = true
+        · have hfr : fs0.find? (fun a => decide (kp a = true ∧ (a.id == id && dw.ttype a.ty == v.ttype) = true)) = some fl := by
+            apply find_unique fs0 hpw fl hfl
+            · simp only [decide_eq_true_eq, Bool.and_eq_true, beq_iff_eq]; exact ⟨hk, hid, htt⟩
+            · intro x hx; simp only [decide_eq_true_eq, Bool.and_eq_true, beq_iff_eq] at hx; rw [hx.2.1, hid]
+          rw [hfr] at h
+          simp only at h
+          cases hx : projTyK (restrict dw keep) dpr fK fl.ty v with
+          | none => simp [hx] at h
+          | some o =>
+            cases o with
+            | ok pv =>
+              simp only [hx] at h
+              obtain ⟨ks, h1, h2, h3⟩ := ih r hrest _ unk slots' unk' h
+              have hkept : keptBy dw fs0 kp (id, v) = true := by simp [keptBy, hfind0, hk]
+              refine ⟨(id, pv) :: ks, by simpa [setAll] using h1, ?_, ?_⟩
+              · simp [TFields.toList, List.filter_cons, hkept, h2]
+              · simp only [TFields.toList, List.filter_cons, hkept, if_true]
+                obtain ⟨ht, G, hG⟩ := hIH fl.ty v hv fK pv hx
+                refine .cons ⟨rfl, ht, G, fun fl' hfl' hid' => ?_⟩ h3
+                have : fl' = fl := same_field fs0 hpw fl' fl hfl' hfl (by rw [hid, hid'])
+                rw [this]; exact hG
+            | err e => simp [hx] at h
+            | panic m => simp [hx] at h
+            | fuel => simp [hx] at h
+        · have hfr : fs0.find? (fun a => decide (kp a = true ∧ (a.id == id && dw.ttype a.ty == v.ttype) = true)) = none := by
+            rw [List.find?_eq_none]
+            intro x hx hq
+            simp only [decide_eq_true_eq, Bool.and_eq_true, beq_iff_eq] at hq
+            have : x = fl := same_field fs0 hpw x fl hx hfl (by rw [hq.2.1, hid])
+            rw [this] at hq; exact hk hq.1
+          rw [hfr] at h
+          simp only at h
+          split at h
+          · obtain ⟨ks, h1, h2, h3⟩ := ih r hrest slots _ slots' unk' h
+            have hkept : keptBy dw fs0 kp (id, v) = false := by simp [keptBy, hfind0, hk]
+            refine ⟨ks, h1, ?_, ?_⟩
+            · simp [TFields.toList, List.filter_cons, hkept, h2]
+            · simpa [TFields.toList, List.filter_cons, hkept] using h3
+          · cases h
+
+end
+end Pilota.TGen
+
+namespace Pilota.TGen
+open Pilota Pilota.Thrift
+
+section
+variable (dw : Doc) (keep : String → Field → Bool) (dpr dpw : Option Nat)
+
+theorem keptBy_eq (fs0 : List Field) (kp : Field → Bool) (hpw : fs0.Pairwise (fun a b => a.id ≠ b.id)) (q : Int × TVal) (fl : Field)
+    (hfl : fl ∈ fs0) (hid : fl.id = q.1) (htt : dw.ttype fl.ty = q.2.ttype) : keptBy dw fs0 kp q = kp fl := by
+  have : fs0.find? (fun x => x.id == q.1 && dw.ttype x.ty == q.2.ttype) = some fl := by
+    apply find_unique fs0 hpw fl hfl
+    · simp only [Bool.and_eq_true, beq_iff_eq]; exact ⟨hid, htt⟩
+    · intro x hx; simp only [Bool.and_eq_true, beq_iff_eq] at hx; rw [hx.1, hid]
+  simp [keptBy, this]
+
+theorem BackT.inj {ty : STy} {x x' y : TVal} (h : BackT dw dpw ty x y) (h' : BackT dw dpw ty x' y) : x = x' := Back.inj dw dpw h.2 h'.2
+
+/-- **the full reader undoes the retaining reader**: for a typed value `w`, whatever the reader of the restricted document
+returns for it with retention is read back by the full reader as `w` itself. -/
+theorem keep_back_all (hd : dw.fieldsOk) : ∀ (f : Nat) (ty : STy) (w : TVal), hasTy dw f ty w = true →
+    ∀ fK w', projTyK (restrict dw keep) dpr fK ty w = some (.ok w') → BackT dw dpw ty w w' := by
+  intro f
+  induction f with
+  | zero => intro ty w h; simp [hasTy] at h
+  | succ f ih =>
+    intro ty w h fK w' hk
+    cases fK with
+    | zero => simp [projTyK] at hk
+    | succ fK =>
+    cases ty with
+    | bool => cases w <;> simp [hasTy] at h; simp [projTyK, projTy] at hk; subst hk; exact ⟨rfl, 1, by simp [projTy]⟩
+    | i8 => cases w <;> simp [hasTy] at h; simp [projTyK, projTy] at hk; subst hk; exact ⟨rfl, 1, by simp [projTy]⟩
+    | i16 => cases w <;> simp [hasTy] at h; simp [projTyK, projTy] at hk; subst hk; exact ⟨rfl, 1, by simp [projTy]⟩
+    | i32 => cases w <;> simp [hasTy] at h; simp [projTyK, projTy] at hk; subst hk; exact ⟨rfl, 1, by simp [projTy]⟩
+    | i64 => cases w <;> simp [hasTy] at h; simp [projTyK, projTy] at hk; subst hk; exact ⟨rfl, 1, by simp [projTy]⟩
+    | double => cases w <;> simp [hasTy] at h; simp [projTyK, projTy] at hk; subst hk; exact ⟨rfl, 1, by simp [projTy]⟩
+    | string => cases w <;> simp [hasTy] at h; simp [projTyK, projTy] at hk; subst hk; exact ⟨rfl, 1, by simp [projTy]⟩
+    | binary => cases w <;> simp [hasTy] at h; simp [projTyK, projTy] at hk; subst hk; exact ⟨rfl, 1, by simp [projTy]⟩
+    | uuid => cases w <;> simp [hasTy] at h; simp [projTyK, projTy] at hk; subst hk; exact ⟨rfl, 1, by simp [projTy]⟩
+    | void => cases w <;> simp [hasTy] at h
+    | list e =>
+      cases w <;> (try (simp [hasTy] at h; done))
+      rename_i t xs
+      simp only [hasTy, Bool.and_eq_true, beq_iff_eq] at h
+      have hall := (allV_iff _ xs).mp h.2
+      simp only [projTyK] at hk
+      cases hn : projNK (restrict dw keep) dpr fK e xs [] with
+      | none => simp [hn] at hk
+      | some o =>
+        cases o with
+        | ok ys =>
+          simp only [hn, Option.some.injEq, Out.ok.injEq] at hk
+          obtain ⟨ys0, hy, hall2⟩ := projNK_inv dw keep dpr dpw e (fun x => hasTy dw f e x = true) (fun x hx => ih e x hx) fK xs hall [] ys hn
+          simp only [List.reverse_nil, List.nil_append] at hy
+          subst hy
+          obtain ⟨G, hG⟩ := projN_all2 dw dpw e (All2.imp (fun _ _ h => h.2) hall2)
+          subst hk
+          refine ⟨rfl, G + 1, ?_⟩
+          simp [projTy, hG [], h.1, TVals.ofList_toList]
+        | err k => simp [hn] at hk
+        | panic m => simp [hn] at hk
+        | fuel => simp [hn] at hk
+    | set e =>
+      cases w <;> (try (simp [hasTy] at h; done))
+      rename_i t xs
+      simp only [hasTy, Bool.and_eq_true, beq_iff_eq] at h
+      have hall := (allV_iff _ xs).mp h.1.2
+      have hnd := (distinctL_iff _).mp h.2
+      simp only [projTyK] at hk
+      cases hn : projNK (restrict dw keep) dpr fK e xs [] with
+      | none => simp [hn] at hk
+      | some o =>
+        cases o with
+        | ok ys =>
+          simp only [hn, Option.some.injEq, Out.ok.injEq] at hk
+          obtain ⟨ys0, hy, hall2⟩ := projNK_inv dw keep dpr dpw e (fun x => hasTy dw f e x = true) (fun x hx => ih e x hx) fK xs hall [] ys hn
+          simp only [List.reverse_nil, List.nil_append] at hy
+          subst hy
+          have hnd2 : ys.Nodup := All2.nodup_right (R := BackT dw dpw e) (fun a a' b h1 h2 => BackT.inj dw dpw h1 h2) hall2 hnd
+          obtain ⟨G, hG⟩ := projN_all2 dw dpw e (All2.imp (fun _ _ h => h.2) hall2)
+          subst hk
+          refine ⟨rfl, G + 1, ?_⟩
+          rw [foldl_setInsert_nodup ys [] hnd2 (by simp)]
+          simp [projTy, hG [], h.1.1, foldl_setInsert_nodup xs.toList [] hnd (by simp), TVals.ofList_toList]
+        | err k => simp [hn] at hk
+        | panic m => simp [hn] at hk
+        | fuel => simp [hn] at hk
+    | map k v =>
+      cases w <;> (try (simp [hasTy] at h; done))
+      rename_i kt vt kvs
+      simp only [hasTy, Bool.and_eq_true, beq_iff_eq] at h
+      have hall := (allP_iff _ _ kvs).mp h.1.2
+      have hnd := (distinctL_iff _).mp h.2
+      simp only [projTyK] at hk
+      cases hn : projPairsK (restrict dw keep) dpr fK k v kvs [] with
+      | none => simp [hn] at hk
+      | some o =>
+        cases o with
+        | ok ys =>
+          simp only [hn, Option.some.injEq, Out.ok.injEq] at hk
+          obtain ⟨ys0, hy, hall2⟩ := projPairsK_inv dw keep dpr dpw k v (fun x => hasTy dw f k x = true) (fun x => hasTy dw f v x = true)
+            (fun x hx => ih k x hx) (fun x hx => ih v x hx) fK kvs hall [] ys hn
+          simp only [List.reverse_nil, List.nil_append] at hy
+          subst hy
+          have hnd2 : (ys.map (·.1)).Nodup :=
+            All2.nodup_right (R := BackT dw dpw k) (fun a a' b h1 h2 => BackT.inj dw dpw h1 h2) (All2.map (·.1) (·.1) (fun _ _ h => h.1) hall2) hnd
+          obtain ⟨G, hG⟩ := projPairs_all2 dw dpw k v (All2.imp (fun _ _ h => ⟨h.1.2, h.2.2⟩) hall2)
+          subst hk
+          refine ⟨rfl, G + 1, ?_⟩
+          rw [foldl_mapInsert_nodup ys [] hnd2 (by simp)]
+          simp [projTy, hG [], h.1.1.1, h.1.1.2, foldl_mapInsert_nodup kvs.toList [] hnd (by simp), TPairs.ofList_toList]
+        | err k => simp [hn] at hk
+        | panic m => simp [hn] at hk
+        | fuel => simp [hn] at hk
+    | ref n =>
+      simp only [hasTy] at h
+      cases hn : dw.find n with
+      | none => simp [hn] at h
+      | some df =>
+        cases df with
+        | struct fs0 =>
+          simp only [hn] at h
+          cases w <;> (try (simp at h; done))
+          rename_i wfs
+          simp only at h
+          have hpw := hd n fs0 hn
+          have hnr : (restrict dw keep).find n = some (.struct (fs0.filter (keep n))) := by rw [restrict_find, hn]; rfl
+          simp only [projTyK, hnr] at hk
+          cases hl : projFieldsK (restrict dw keep) dpr fK (fs0.filter (keep n)) [] [] wfs with
+          | none => simp [hl] at hk
+          | some o =>
+            cases o with
+            | ok su =>
+              obtain ⟨slots, unk⟩ := su
+              simp only [hl] at hk
+              cases hfin : finish (fs0.filter (keep n)) slots with
+              | ok out =>
+                simp only [hfin, Option.some.injEq, Out.ok.injEq] at hk
+                subst hk
+                have hmem := hasFields_mem dw (hasTy dw f) fs0 wfs h
+                obtain ⟨ks, hs, hu, hrel⟩ := projFieldsK_inv dw keep dpr dpw fs0 (keep n) hpw f (fun ty x hx => ih ty x hx) fK wfs
+                    (fun p hp => by obtain ⟨fl, a, b, _, c, e⟩ := hmem p hp; exact ⟨fl, a, b, c, e⟩) [] [] slots unk hl
+                simp only [List.nil_append] at hu
+                have keptSlot : ∀ q ∈ wfs.toList, ∀ fl ∈ fs0, keep n fl = true → fl.id = q.1 → (slotGet slots fl.id).isSome = true := by
+                  intro q hq fl hfl hkp hid
+                  obtain ⟨fl', hfl', hid', _, htt', _⟩ := hmem q hq
+                  have hsame : fl' = fl := same_field fs0 hpw fl' fl hfl' hfl (by rw [hid, hid'])
+                  rw [hsame] at htt'
+                  have hkq : keptBy dw fs0 (keep n) q = true := by rw [keptBy_eq dw fs0 (keep n) hpw q fl hfl hid htt']; exact hkp
+                  obtain ⟨k, hkm, hk1, _⟩ := hrel.mem_left q (List.mem_filter.mpr ⟨hq, hkq⟩)
+                  rw [hs]
+                  exact setAll_get_isSome ks [] fl.id (.inl ⟨k, hkm, by rw [hk1, hid]⟩)
+                refine ⟨rfl, ?_⟩
+                apply struct_back dw dpw (hasTy dw f) n fs0 hn hpw wfs h (out ++ unk)
+                · intro p hp
+                  rcases List.mem_append.mp hp with hpo | hpu
+                  · obtain ⟨fl, hflr, hid, hslot⟩ := finish_mem _ slots out hfin p hpo
+                    have hfl0 := List.mem_filter.mp hflr
+                    rcases hslot with hsome | ⟨hnone, hdf⟩
+                    · rw [hs] at hsome
+                      rcases setAll_get_some ks [] fl.id p.2 hsome with hin | hbad
+                      · obtain ⟨a, ha, ha1, ha2, G, hG⟩ := hrel.mem_right (fl.id, p.2) hin
+                        simp only at ha1 ha2 hG
+                        have hqw := (List.mem_filter.mp ha).1
+                        have hpa : (p.1, a.2) = a := by rw [← hid, ha1]
+                        refine ⟨a.2, by rw [hpa]; exact hqw, ha2, G, ?_⟩
+                        intro fl' hfl' hid'
+                        exact hG fl' hfl' (by rw [hid', ← hid, ha1])
+                      · simp [slotGet] at hbad
+                    · exfalso
+                      rcases hasFields_absent dw _ fs0 wfs h fl hfl0.1 with ⟨q, hq, hqid⟩ | ⟨_, hdn⟩
+                      · have := keptSlot q hq fl hfl0.1 hfl0.2 hqid.symm
+                        rw [hnone] at this; cases this
+                      · rw [hdn] at hdf; cases hdf
+                  · rw [hu] at hpu
+                    have hpw' := (List.mem_filter.mp hpu).1
+                    obtain ⟨fl, hfl, hid, _, htt, hty⟩ := hmem p hpw'
+                    obtain ⟨G, hG⟩ := canon_of_hasTy dw dpw hd f fl.ty p.2 hty
+                    refine ⟨p.2, hpw', rfl, G, fun fl' hfl' hid' => ?_⟩
+                    rw [same_field fs0 hpw fl' fl hfl' hfl (by rw [hid, hid'])]; exact hG
+                · intro q hq
+                  by_cases hkq : keptBy dw fs0 (keep n) q = true
+                  · obtain ⟨fl, hfl, hid, _, htt, _⟩ := hmem q hq
+                    have hkp : keep n fl = true := by rw [← keptBy_eq dw fs0 (keep n) hpw q fl hfl hid htt]; exact hkq
+                    have hsome := keptSlot q hq fl hfl hkp hid
+                    obtain ⟨pv, hpv⟩ := Option.isSome_iff_exists.mp hsome
+                    have := finish_has _ slots out hfin fl (List.mem_filter.mpr ⟨hfl, hkp⟩) pv hpv
+                    exact ⟨(fl.id, pv), List.mem_append.mpr (.inl this), hid⟩
+                  · refine ⟨q, List.mem_append.mpr (.inr ?_), rfl⟩
+                    rw [hu]
+                    exact List.mem_filter.mpr ⟨hq, by simpa using hkq⟩
+              | err k => simp [hfin] at hk
+              | panic m => simp [hfin] at hk
+              | fuel => simp [hfin] at hk
+            | err k => simp [hl] at hk
+            | panic m => simp [hl] at hk
+            | fuel => simp [hl] at hk
+        | union vs =>
+          simp only [hn] at h
+          cases w <;> (try (simp at h; done))
+          rename_i wfs
+          have hnr : (restrict dw keep).find n = some (.union vs) := by rw [restrict_find, hn]; rfl
+          simp only [projTyK, hnr] at hk
+          cases wfs with
+          | nil =>
+            cases vs with
+            | nil => simp at h
+            | cons hd' tl =>
+              obtain ⟨i, t⟩ := hd'
+              cases t <;> simp at h
+              cases fK with
+              | zero => simp [projUnionK] at hk
+              | succ fK =>
+                simp [projUnionK] at hk
+                subst hk
+                exact ⟨rfl, 2, by simp [projTy, hn, projUnion]⟩
+          | cons id v r =>
+            cases r with
+            | cons => simp at h
+            | nil =>
+              simp only at h
+              cases hfind : vs.find? (fun x => x.1 == id && !(x.2 == .void)) with
+              | none => simp [hfind] at h
+              | some p =>
+                obtain ⟨pid, ty⟩ := p
+                simp only [hfind, Bool.and_eq_true, decide_eq_true_eq, beq_iff_eq] at h
+                cases fK with
+                | zero => simp [projUnionK] at hk
+                | succ fK =>
+                  simp only [projUnionK, h.1.1, not_true_eq_false, if_false, hfind, Option.isSome_none, Bool.false_eq_true,
+                    restrict_ttype, h.1.2, bne_self_eq_false] at hk
+                  cases hx : projTyK (restrict dw keep) dpr fK ty v with
+                  | none => simp [hx] at hk
+                  | some o =>
+                    cases o with
+                    | ok pv =>
+                      simp only [hx] at hk
+                      cases fK with
+                      | zero => simp [projTyK] at hx
+                      | succ fK =>
+                        simp only [projUnionK, Option.some.injEq, Out.ok.injEq] at hk
+                        subst hk
+                        obtain ⟨ht, G, hG⟩ := ih ty v h.2 (fK + 1) pv hx
+                        refine ⟨rfl, G + 1 + 1 + 1, ?_⟩
+                        have hG' := projTy_mono dw dpw G (G + 1) (by omega) ty pv v hG
+                        simp only [projTy, hn, projUnion, h.1.1, not_true_eq_false, if_false, hfind, Option.isSome_none, Bool.false_eq_true,
+                          ht, h.1.2, bne_self_eq_false, hG']
+                    | err k => simp [hx] at hk
+                    | panic m => simp [hx] at hk
+                    | fuel => simp [hx] at hk
+        | enum =>
+          simp only [hn] at h
+          cases w <;> (try (simp at h; done))
+          have hnr : (restrict dw keep).find n = some .enum := by rw [restrict_find, hn]; rfl
+          simp only [projTyK, hnr, Option.some.injEq, Out.ok.injEq] at hk
+          subst hk
+          exact ⟨rfl, 1, by simp [projTy, hn]⟩
+        | typedef t =>
+          simp only [hn] at h
+          have hnr : (restrict dw keep).find n = some (.typedef t) := by rw [restrict_find, hn]; rfl
+          simp only [projTyK, hnr] at hk
+          obtain ⟨ht, G, hG⟩ := ih t w h fK w' hk
+          exact ⟨ht, G + 1, by simp [projTy, hn, hG]⟩
+
+end
+end Pilota.TGen
